@@ -402,3 +402,41 @@ Definition bias_loop_items (need_main_thread : bool) (c : cfg) (t : nat) (ob : l
 
 (* the log of a loop: every item appends its messages when it runs (one proxy->log call per message, serialised) *)
 Definition log_of {A} (msgs : list (list A)) (order : list nat) : list A := concat (pick msgs order).
+
+(* ------------------------------------------------------------------------------------------- *)
+(* 9. The item list as state of the module                                                      *)
+(* ------------------------------------------------------------------------------------------- *)
+(* colvars_smp / colvars_smp_items are members of colvarmodule that survive between steps; calc_colvars clears and refills
+   them at EVERY step from the active set of that step.  [rebuild_items old c t] is the list after the step-t rebuild when
+   [old] was the list before. *)
+Definition rebuild_items (old : list (nat * nat)) (c : cfg) (t : nat) : list (nat * nat) :=
+  build_items (active_vars t (prep_vars t (c_vars c))).
+(* a variant that keeps the old list when the total number of items is unchanged (what a seeded change did) *)
+Definition rebuild_items_cached (old : list (nat * nat)) (c : cfg) (t : nat) : list (nat * nat) :=
+  let fresh := build_items (active_vars t (prep_vars t (c_vars c))) in
+  if Nat.eqb (length fresh) (length old) then old else fresh.
+(* the list over a history of steps 0..n-1 (configuration carried by next_cfg) *)
+Fixpoint items_history (rebuild : list (nat * nat) -> cfg -> nat -> list (nat * nat))
+         (old : list (nat * nat)) (c : cfg) (t n : nat) : list (list (nat * nat)) :=
+  match n with
+  | O => []
+  | S m => let l := rebuild old c t in l :: items_history rebuild l (next_cfg c t) (S t) m
+  end.
+
+(* ------------------------------------------------------------------------------------------- *)
+(* 10. The step that raises "all CVCs are disabled"                                              *)
+(* ------------------------------------------------------------------------------------------- *)
+(* serial path: calc_colvars runs colvar::calc() variable by variable and RETURNS at the first variable whose
+   update_cvc_flags fails (the variables before it are computed and collected, the failing one and the ones after it keep
+   their old values); SMP path: update_cvc_flags of every active variable, then all items, then every collection (the failing
+   variable has no item and collects the empty sum).  Component/collection part of the step only. *)
+Fixpoint serial_vars_until_error (avs : list (nat * var)) : list (nat * var) :=
+  match avs with
+  | [] => []
+  | p :: r => if negb (any_true (v_flags (snd p))) then [] else p :: serial_vars_until_error r
+  end.
+Definition serial_cvc_items_err (c : cfg) (t : nat) : list sitem :=
+  flat_map serial_var_items (serial_vars_until_error (active_vars t (prep_vars t (c_vars c)))).
+Definition smp_cvc_items_err (c : cfg) (t : nat) : list sitem :=
+  let vs := prep_vars t (c_vars c) in
+  concat (smp_cvc_work vs t) ++ map collect_item (active_vars t vs).
